@@ -128,12 +128,18 @@ def havoc(ex, st, body, extra_names=()):
 def invariants_for(ex, st, node):
     c = getattr(ex, "current_contract", None)
     lid = loop_id(st.fn.node, node)
-    if c is None or ex.repo.func(c.target) is not st.fn:
+    if c is None or ex.repo.func(c.target.split('#')[0]) is not st.fn:
         raise Unsupported("loop %s in %s: no contract in scope carries its invariant" % (lid, st.fn.qualname), node)
     return lid, c.invariants.get(lid, [])
 
 
 def check_invs(ex, invs, st, label, lid, extra_env):
+    ff = getattr(ex, "frame_formulas", None)
+    if ff is not None and label != "init":
+        # automatic loop invariant: the function's modifies clause holds at every iteration boundary
+        for key, g in ff(st):
+            ex.cx.oblige("%s/%s:frame:%s.%s/%s" % (_short(ex.current_contract.target), lid, key[0], key[1], label), st, g,
+                         {"kind": "loop-frame", "function": ex.current_contract.target})
     pre = ex.pre_state
     env = dict(st.env)
     env.update(extra_env)
@@ -145,6 +151,9 @@ def check_invs(ex, invs, st, label, lid, extra_env):
 
 
 def assume_invs(ex, invs, st, extra_env):
+    ff = getattr(ex, "frame_formulas", None)
+    if ff is not None:
+        st = st.assume(*[g for _, g in ff(st)])
     pre = ex.pre_state
     env = dict(st.env)
     env.update(extra_env)
@@ -161,7 +170,8 @@ def enumeration(ex, it, st, node):
     cx = ex.cx
     S = cx.sorts
     if isinstance(it, SV) and it.ty.kind == "seq":
-        return "(seq.len %s)" % it.t, (lambda i: SV("(seq.nth %s %s)" % (it.t, i), it.ty.args[0])), []
+        ax = ["(forall ((i Int)) (=> (and (<= 0 i) (< i (seq.len %s))) (seq.contains %s (seq.unit (seq.nth %s i)))))" % (it.t, it.t, it.t)]
+        return "(seq.len %s)" % it.t, (lambda i: SV("(seq.nth %s %s)" % (it.t, i), it.ty.args[0])), ax
     if isinstance(it, SV) and it.ty.kind == "qmap":
         it = PyV("mapkeys", it)
     if isinstance(it, SV) and it.ty.kind == "oset":
